@@ -575,6 +575,7 @@ def proof_stage(rep):
 TRUSTED = vlib.TRUSTED_BASE_COMMON[:2] + [
     "coq/SeqModel.v as the model of Array.hpp / String.hpp / StringStream.hpp (tied to the C++ by the C14 correspondence run); coq/LedgerModel.v adds only observers (owners, live blocks, destroy_all) and does not change the step functions",
     "coq/LedgerValueModel.v as the ownership model of Value.hpp / HArray.hpp / HashTable.hpp (hand-written from the code after D29, D40v, D42v, D43v, D52, D63; NOT extracted and not run against the C++: how many blocks an object holds is policy, the model leaves growth / compaction to flags chosen by the history; the same operation families are exercised on the real code by the 'value', 'htab' and 'nested' ledger families)",
+    "coq/HtabLedgerModel.v as the ownership model of HashTable.hpp / HArray.hpp / HList.hpp storage, key and value tokens (hand-written from the code as it stands; which item a key names is abstracted to key names, capacity to a grow flag); the same operation families are exercised on the real code by the 'htab' ledger family",
     "cpp/ledger.hpp + the QENTEM_Q_TEST_H seam of Include/Memory.hpp: every Memory::Allocate / Deallocate of the library passes through it (grep: the only ::operator new / delete of Include/ are there)",
     "C++ drivers under /verif/cpp (the interpreters of the C12/C13/C14/C05/C01 checks, rebuilt with -DVERIF_LEDGER=1; cpp/drv_ledger_cache.cpp), g++ 12 with ASan/LSan/UBSan, tools/*.py generators",
 ]
@@ -712,7 +713,7 @@ def check(tier):
         "oracle_failures": sum(v["verdict_failures"] for v in per_family.values()),
     })
     rep.assumptions = [
-        "the theorems are about (1) the block-heap model coq/SeqModel.v (Array<int>, String, StringStream; the model of the C14 theorems) with the observers of coq/LedgerModel.v and (2) the ownership model of Value trees coq/LedgerValueModel.v; Array<String> elements, hash-table internals, tag records, expression lists and the JSON / template parsers' failure paths are NOT modelled: for them C16 rests on the runtime ledger + sanitizers reported here (finite search)",
+        "the theorems are about (1) the block-heap model coq/SeqModel.v (Array<int>, String, StringStream; the model of the C14 theorems) with the observers of coq/LedgerModel.v (2) the ownership model of Value trees coq/LedgerValueModel.v, (3) nested Array<Node> coq/LedgerNestedModel.v and (4) the storage / key / value ownership model of the hash table coq/HtabLedgerModel.v; Array<String> elements, tag records, expression lists and the JSON / template parsers' failure paths are NOT modelled: for them C16 rests on the runtime ledger + sanitizers reported here (finite search)",
         "nested-array model: tied to the C++ by the correspondence run reported under nested_model_correspondence (contents after every step: implementation = extracted ownership model = extracted value-semantics specification; finite); that the model's contents equal the specification for ALL histories is tested, not proved; d strictly inside s (assigning / appending a container into one of its own parts) is outside the domain",
         "Value model: targets are value positions (variable, array element, value of an item); moving a value into one of its own members and Merge / append-of-a-value between a value and its own member or ancestor are outside the domain (no-ops in the model, skipped by the drivers); Value::Compress is the model's one-level OCompress applied at the node and then at every container child",
         "whether a destructor really runs, and use after release, are decided by the C++ runtime: covered by ASan / LSan on the generated cases, not by the theorems",
